@@ -21,11 +21,7 @@ import (
 	"fmt"
 	"math/rand"
 	"os"
-	"runtime"
 	"sort"
-	"sync"
-
-	"github.com/tendermint/tendermint/libs/verifhook"
 
 	"verif/verdict"
 )
@@ -525,7 +521,7 @@ func (hs *hist) cycles(r *rand.Rand, cfg histCfg, m *model, lv *live) {
 		// at the synced size then leaves an empty head next to rotated files): keep
 		// writing synced records until the head has just been rotated away
 		afterRotation := false
-		if m.HeadLimit > 0 && r.Intn(3) == 0 {
+		if m.HeadLimit > 0 && m.HeadLimit < hugeLimit && r.Intn(3) == 0 {
 			for i := 0; i < 300 && !(len(m.Files) > 1 && m.head().Logical == 0); i++ {
 				op := gen()
 				if op.Kind == opWrite || op.Kind == opEndWrite {
